@@ -522,6 +522,11 @@ func checkParse(c pcase) (o pbt.Outcome, err error) {
 				return o, fmt.Errorf("ParseUnalign: two sequences are named %q", name)
 			}
 			seen[name] = true
+			// a record without residues is refused by the reader (an entry with a name and no
+			// sequence is an error): success never comes with an empty sequence
+			if s, _ := out.bag.GetSequenceById(i); len(s) == 0 {
+				return o, fmt.Errorf("ParseUnalign: success with an empty sequence %q", name)
+			}
 		}
 		o.Class("%s: ok", c.Target)
 		return o, nil
@@ -1138,7 +1143,7 @@ var hostile = []string{
 
 // mutate applies one mutation; returns the new data and the kind
 func mutate(t *rapid.T, d []byte, other []byte) ([]byte, string) {
-	kind := rapid.SampledFrom([]string{"empty-command", "dup-terminator", "truncate", "truncate", "del-line", "dup-line", "swap-lines", "flip-byte", "ins-byte", "del-byte", "token", "token", "token", "splice", "header-count", "del-range", "crlf", "strip-final-newline"}).Draw(t, "mutation")
+	kind := rapid.SampledFrom([]string{"empty-command", "dup-terminator", "blank-line", "blank-lines", "truncate", "truncate", "del-line", "dup-line", "swap-lines", "flip-byte", "ins-byte", "del-byte", "token", "token", "token", "splice", "header-count", "del-range", "crlf", "strip-final-newline"}).Draw(t, "mutation")
 	n := len(d)
 	pos := func(label string) int {
 		if n == 0 {
@@ -1244,6 +1249,28 @@ func mutate(t *rapid.T, d []byte, other []byte) ([]byte, string) {
 		}
 		loc := locs[rapid.IntRange(0, len(locs)-1).Draw(t, "terminator")]
 		return append(append(append([]byte{}, d[:loc[1]]...), d[loc[0]:loc[1]]...), d[loc[1]:]...), kind
+	case "blank-line", "blank-lines":
+		// the content of one line - or of every line that does not start a record or a command
+		// ('>', '#', a digit header is kept) - replaced by blanks: residues that are there and empty
+		ls := lines()
+		blank := func(l string) string {
+			nl := ""
+			if strings.HasSuffix(l, "\n") {
+				nl = "\n"
+			}
+			return rapid.SampledFrom([]string{" ", "  ", "\t", " \t "}).Draw(t, "blanks") + nl
+		}
+		if kind == "blank-line" {
+			i := rapid.IntRange(0, len(ls)-1).Draw(t, "line")
+			ls[i] = blank(ls[i])
+		} else {
+			for i, l := range ls {
+				if i > 0 && l != "" && !strings.HasPrefix(l, ">") && !strings.HasPrefix(l, "#") {
+					ls[i] = blank(l)
+				}
+			}
+		}
+		return []byte(strings.Join(ls, "")), kind
 	case "crlf":
 		return bytes.ReplaceAll(d, []byte("\n"), []byte("\r\n")), kind
 	case "strip-final-newline":
